@@ -698,7 +698,29 @@ func checkC09Payload(c *Ctx) {
 				sprintf("%s writes a newline-terminated line handed in by its callers, and %s", fname(fn), why))
 			continue
 		}
-		c.R.Check(oc != nil && ir.CallName(oc) == "encoding/json.Marshal", "R-payload", construct, c.Pos(payload.Pos()),
+		// one Marshal result, or — after a fallback encoding of an error answer — a merge of Marshal results only
+		allMarshal := func(v ssa.Value) bool {
+			seen := map[ssa.Value]bool{}
+			var walk func(v ssa.Value) bool
+			walk = func(v ssa.Value) bool {
+				if seen[v] {
+					return true
+				}
+				seen[v] = true
+				if phi, ok := v.(*ssa.Phi); ok {
+					for _, e := range phi.Edges {
+						if !walk(e) {
+							return false
+						}
+					}
+					return len(phi.Edges) > 0
+				}
+				o := originCall(v)
+				return o != nil && ir.CallName(o) == "encoding/json.Marshal"
+			}
+			return walk(v)
+		}
+		c.R.Check((oc != nil && ir.CallName(oc) == "encoding/json.Marshal") || allMarshal(payload.Call.Args[0]), "R-payload", construct, c.Pos(payload.Pos()),
 			"line payload originates from json.Marshal", sprintf("%s writes a newline-terminated line whose payload does not come from json.Marshal", fname(fn)))
 	}
 	c.R.Min("R-payload", 2)
